@@ -64,7 +64,9 @@ class SectionOutput(Output):
 
     def add_content(self, content):  # type: (str) -> None
         if self._indent > 0:
-            content = "\n".join((" " * self._indent + s) for s in content.split("\n"))
+            content = "\n".join(
+                (" " * self._indent + s) if s else s for s in content.split("\n")
+            )
 
         for line_content in content.split("\n"):
             self._lines += self._count_rows(line_content)
